@@ -322,8 +322,8 @@ SPEC = {
                       'vectors as Examples) are the primitives of the specification; their correctness is by vectors and by the '
                       'differential runs against the md-5, sha2, aes crates, not by proof',
                       'C06: password preparation (PDFDocEncoding / SASLprep) is an oracle; the cases use printable-ASCII passwords'],
-    'partial_note': 'MD5/SHA-2/RC4 correctness by published vectors + differential runs, not by proof (AES inverse and MD5 size proved; '
-                    'SHA-2 output sizes assumed by the R5/R6 document theorems); password preparation is an oracle',
+    'partial_note': 'MD5/SHA-2/RC4 correctness by published vectors + differential runs, not by proof (the laws the theorems use -- '
+                    'AES inverse, MD5 and SHA-2 output sizes -- are proved); password preparation is an oracle',
     'impl_timeout': 1200,
     'model_timeout': 1500,
     'model_shards': 8,      # vlib shards only when there are >= 4 lines per shard
@@ -350,10 +350,10 @@ MANIFEST = {
                   'encrypted, it opens what lopdf encrypted, and it reproduces lopdf\'s output byte for byte from the random '
                   'choices read back (V1, V2 40..128, V4 RC4/AESV2/None, R5, R6).',
     'level_note': 'Partial: MD5, SHA-2, RC4 against their standards by published vectors and differential runs, not by proof (AES '
-                  'decryption inverting encryption IS proved for the Gallina AES; MD5 output size proved); the R5/R6 document '
-                  'theorems assume the SHA-2 output sizes; an owner (R2-4) / user (R5/6) password that also passes the other '
+                  'decryption inverting encryption, the MD5 and the SHA-2 output sizes ARE proved for the Gallina instances, so the '
+                  'document theorems hold for them with no hypothesis on the primitives); an owner (R2-4) / user (R5/6) password that also passes the other '
                   'check is excluded (cryptographic); password preparation (PDFDocEncoding/SASLprep) is an oracle (ASCII '
-                  'passwords). No open known finding (EFF, DecodeParms arrays, direct encryption dictionary fixed in /repo). '
+                  'passwords). No open known finding (EFF, DecodeParms arrays, direct encryption dictionary, Length 256 on V 5 fixed in /repo). '
                   'Trusted: Coq kernel, translator part Crypto, extraction. No axioms.',
     'technique': 'Coq refinement proofs model-vs-standard + extracted specification as independent implementation in a two-way '
                  'differential check + direct property evaluation on the crate',
